@@ -9,6 +9,10 @@ Decided by model-based verification with spec/Sigs.tla and spec/Keybase.tla:
           arrangements in which every listed key signed the message in its own position, and
           prints the case table; cryptodrv builds every case from real ed25519 / secp256k1 /
           mixed keys and real signatures and the real VerifyBytes must return the model's boolean.
+          The SLOT-SHAPE table (Sigs.tla part 3b) fills every slot of a multisignature of the key's own
+          shape with the signature that belongs there / one that does not / nothing (zero bytes): an
+          empty slot anywhere (all empty, exactly one empty at each position, nested slots) must never
+          verify; every run checks that these cases were generated and executed.
  Keybase: TLC explores the whole state graph of the keybase machine (3 keys, 4 passphrases of
           which two differ from the other two only by white space, 1-2 kept armors) checking the property on every transition (StepOK); behaviours drawn by
           TLC's simulator (seeded) are selected to cover every (operation, result class) and are
@@ -16,11 +20,20 @@ Decided by model-based verification with spec/Sigs.tla and spec/Keybase.tla:
           dir); after every step the success/failure of the call, the key it returned, List(),
           and - for signatures - verification under the listed public key are compared with the
           model; at the end of a behaviour every listed key is probed with every passphrase.
+          Keys of BOTH types live in the keybase: key 2 is a secp256k1 key, which enters as an armor
+          made outside (ArmorRaw = mintkey.EncryptArmorPrivKey, then ImportPrivKey); a third backend is
+          the dbKeybase over a GoLevelDB that stays open. The SCENARIO PROGRAMS of Keybase.tla
+          (case tables RoundTrip and Life over all keys and ALL passphrases, the empty one included) are
+          run by TLC with the specification's own actions (MC_KeybaseProg.cfg) and replayed on every
+          backend: the ones that put the empty passphrase into each parameter position, export under ""
+          and import with "" / with the storage passphrase, re-import a stored key of each type, are
+          required on every run, the rest is sampled by the seed.
 """
 import json
 import os
 import random
 import re
+import threading
 import time
 
 import common
@@ -28,14 +41,21 @@ import common
 NEEDS = {"cmds": ["cryptodrv"], "specs": ["Sigs", "Keybase"]}
 
 TIERS = {
-    "quick": dict(sigs=["MC_Sigs.cfg"], kb="MC_Keybase.cfg", kbsim="MC_KeybaseSim.cfg", depth=12, sim_num=400,
-                  budget_mem=600, budget_lazy=250, tlc_timeout=600, workers=6),
-    "thorough": dict(sigs=["MC_SigsThorough.cfg", "MC_SigsThoroughB.cfg"], kb="MC_KeybaseThorough.cfg", kbsim="MC_KeybaseSimThorough.cfg", depth=16,
-                     sim_num=2500, budget_mem=6000, budget_lazy=2000, tlc_timeout=1700, workers=6),
+    "quick": dict(sigs=["MC_Sigs.cfg"], kb="MC_Keybase.cfg", kbsim="MC_KeybaseSim.cfg", kbprog="MC_KeybaseProg.cfg", depth=12, sim_num=400,
+                  budget={"mem": 600, "leveldb": 250, "lazy": 250}, budget_prog={"mem": 420, "leveldb": 420, "lazy": 420},
+                  tlc_timeout=600, workers=5),
+    "thorough": dict(sigs=["MC_SigsThorough.cfg", "MC_SigsThoroughB.cfg"], kb="MC_KeybaseThorough.cfg", kbsim="MC_KeybaseSimThorough.cfg",
+                     kbprog="MC_KeybaseProg.cfg", depth=16, sim_num=2500,
+                     budget={"mem": 6000, "leveldb": 2000, "lazy": 2000}, budget_prog={"mem": 9000, "leveldb": 4500, "lazy": 4500},
+                     tlc_timeout=1700, workers=5),
 }
+BACKENDS = ("mem", "leveldb", "lazy")
+# Keybase.tla: NK = 3, NKnown = 2, Secp = {2} in every configuration
+NK, NKNOWN, SECP = 3, 2, [2]
+KIND = {1: "ed25519-raw", 2: "secp256k1-armored", 3: "ed25519-created"}
 
 # every (operation, result class) of Keybase.tla must be replayed at least once
-REQUIRED = [("Create", "ok"), ("ImportObj", "ok"), ("ImportObj", "exists"), ("ImportArm", "ok"), ("ImportArm", "badpass"),
+REQUIRED = [("Create", "ok"), ("ArmorRaw", "ok"), ("ImportObj", "ok"), ("ImportObj", "exists"), ("ImportArm", "ok"), ("ImportArm", "badpass"),
             ("ImportArm", "exists"), ("ImportJunk", "badarmor"), ("Update", "ok"), ("Update", "badpass"),
             ("Update", "notfound"), ("ExportArm", "ok"), ("ExportArm", "badpass"), ("ExportArm", "notfound"),
             ("ExportObj", "ok"), ("ExportObj", "badpass"), ("ExportObj", "notfound"), ("Delete", "ok"),
@@ -44,6 +64,28 @@ REQUIRED = [("Create", "ok"), ("ImportObj", "ok"), ("ImportObj", "exists"), ("Im
             ("GetCoinbase", "ok"), ("GetCoinbase", "nokeys")]
 USES_PASS = {"Update", "ExportArm", "ExportObj", "Delete", "Sign", "ImportArm"}
 COINBASE = {"SetCoinbase", "GetCoinbase"}
+# every one of these (operation, result class) must be replayed for a key of EVERY kind (raw ed25519, armored secp256k1,
+# created ed25519) on every backend: item (op@kind, class)
+TYPED_OPS = [("ImportArm", "ok"), ("ImportArm", "badpass"), ("ImportArm", "exists"), ("Update", "ok"), ("Update", "badpass"),
+             ("ExportArm", "ok"), ("ExportArm", "badpass"), ("ExportObj", "ok"), ("ExportObj", "badpass"), ("Delete", "ok"),
+             ("Delete", "badpass"), ("Sign", "ok"), ("Sign", "badpass"), ("Get", "ok"), ("SetCoinbase", "ok")]
+TYPED_REQUIRED = [("%s@%s" % (op, kind), cls) for kind in sorted(KIND.values()) for op, cls in TYPED_OPS]
+# the EMPTY passphrase in every parameter position of every operation that takes one:
+#   e-right  a successful call whose decrypt passphrase (storage / armor) is ""          e-new   a successful call that encrypts under ""
+#   e-wrong  "" presented where another passphrase is needed (must fail)                e-needed  another one presented where "" is needed (must fail)
+EMPTY_REQUIRED = [("e-right", op) for op in ("Update", "ExportArm", "ExportObj", "Delete", "Sign", "ImportArm")] + \
+                 [("e-new", op) for op in ("Create", "ImportObj", "ArmorRaw", "Update", "ExportArm", "ImportArm")] + \
+                 [("e-wrong", op) for op in ("Update", "ExportArm", "ExportObj", "Delete", "Sign", "ImportArm")] + \
+                 [("e-needed", op) for op in ("Update", "ExportArm", "ExportObj", "Delete", "Sign", "ImportArm")]
+# round trips and the overwrite guard, per kind of key:
+#   roundtrip-export-under-empty      ExportArm under "" of a key stored under another passphrase, Delete, ImportArm with "" -> the key
+#   empty-export-storage-pass-refused the same export, the key absent, ImportArm with the STORAGE passphrase -> must fail
+#   export-empty-import-refused       an export under another passphrase, the key absent, ImportArm with "" -> must fail
+#   reimport-refused                  ImportArm (right decrypt passphrase, ANOTHER encrypt passphrase) of a key that is stored
+#                                     -> refused, and afterwards the owner's passphrase still opens the key
+SCEN_REQUIRED = [(name, kind) for kind in sorted(KIND.values())
+                 for name in ("roundtrip-export-under-empty", "empty-export-storage-pass-refused", "export-empty-import-refused",
+                              "reimport-refused-then-owner-signs")]
 
 
 def _tlc(module, cfg, d, label, timeout, **kw):
@@ -109,6 +151,8 @@ def _sig_class(key, sig):
         return "multi-key/missing-or-truncated"
     if m > n:
         return "multi-key/extra-component"
+    if "empty" in kinds:
+        return "multi-key/empty-slot"
     if kinds - {"s"}:
         return "multi-key/damaged-component"
     if any(a[2] != 1 for a in at):
@@ -116,6 +160,60 @@ def _sig_class(key, sig):
     if sorted(a[1] for a in at) == sorted(l[1] for l in leaves(key)) and len(at) == len(leaves(key)):
         return "multi-key/same-signers-(right-or-permuted-or-renested)"
     return "multi-key/wrong-or-duplicated-signer"
+
+
+def _leaf_count(key):
+    return 1 if key[0] == "k" else sum(_leaf_count(c) for c in key[1])
+
+
+def _nested_slots(key):
+    """number of slots of a multisignature key that expect a nested multisignature (at any depth)"""
+    return 0 if key[0] == "k" else sum((1 if c[0] == "mk" else 0) + _nested_slots(c) for c in key[1])
+
+
+def _slot_shape_vacuity(cases):
+    """The slot-shape dimension of Sigs.tla must be present in the table: for EVERY multisignature key of the
+    table all slots empty, exactly one empty leaf slot at each position (the others signed in position), an empty
+    nested slot as a whole, empty slots next to wrong signatures; and the specification refuses every one of them."""
+    per = {}
+    for c in cases:
+        if c["key"][0] != "mk":
+            continue
+        v = c.get("slots")
+        if v is None:
+            raise common.ToolError("Sigs: the case table carries no slot-shape vector (slots)")
+        e = per.setdefault(json.dumps(c["key"]), {"key": c["key"], "vectors": set(), "n": 0, "nE": 0})
+        if "X" in v:
+            continue
+        e["n"] += 1
+        if "E" in v:
+            e["nE"] += 1
+            if c["ok"]:
+                raise common.ToolError("Sigs: the specification accepts a multisignature with an empty slot: %s" % json.dumps(c))
+        e["vectors"].add("".join(v))
+    if not per:
+        raise common.ToolError("Sigs: no multisignature key in the table")
+    stats = {}
+    nested_keys = 0
+    for ks, e in sorted(per.items()):
+        n = _leaf_count(e["key"])
+        need = {"E" * n, "G" * n}
+        need |= {"G" * i + "E" + "G" * (n - 1 - i) for i in range(n)}          # exactly one empty, at each position
+        need |= {"W" * i + "E" + "W" * (n - 1 - i) for i in range(n)}          # one empty among wrong signatures
+        need.add("E")                                                          # no bytes at all where the multisignature is expected
+        missing = sorted(need - e["vectors"])
+        if missing:
+            raise common.ToolError("Sigs: slot-shape vectors %s were not generated for key %s (vacuity)" % (missing, ks))
+        if _nested_slots(e["key"]):
+            nested_keys += 1
+            # a nested slot empty as a whole: a vector shorter than the number of leaves
+            if not any("E" in v and len(v) < n and len(v) > 1 for v in e["vectors"]):
+                raise common.ToolError("Sigs: no case with an empty NESTED slot for key %s (vacuity)" % ks)
+        stats[ks] = {"leaf_slots": n, "slot_shape_cases": e["n"], "with_an_empty_slot": e["nE"], "distinct_vectors": len(e["vectors"])}
+    if nested_keys == 0 or nested_keys == len(per):
+        raise common.ToolError("Sigs: the slot-shape table needs flat AND nested multisignature keys")
+    return {"keys": stats, "cases_with_an_empty_slot": sum(x["with_an_empty_slot"] for x in stats.values()),
+            "legend": "G signed in position, W a signature that does not belong there, E empty (zero bytes)"}
 
 
 def _run_sigs(d, tier, seed, out, find, notes):
@@ -138,6 +236,7 @@ def _run_sigs(d, tier, seed, out, find, notes):
     accepted = sum(1 for c in cases if c["ok"])
     if accepted == 0:
         raise common.ToolError("Sigs: vacuous table (no accepted arrangement)")
+    slot_stats = _slot_shape_vacuity(cases)
     reqs = [{"i": i, "key": c["key"], "sig": c["sig"]} for i, c in enumerate(cases)]
     reqs += [{"i": len(cases) + j, "build": b["order"]} for j, b in enumerate(builds)]
     stdin = "\n".join(json.dumps(r, separators=(",", ":")) for r in reqs) + "\n"
@@ -158,11 +257,13 @@ def _run_sigs(d, tier, seed, out, find, notes):
             if got != want:
                 if got.startswith("panic"):
                     sig, what = "sig-verify-panics", "VerifyBytes panics"
+                elif got == "T" and "E" in (c.get("slots") or []):
+                    sig, what = "sig-accepted-with-empty-slot", "VerifyBytes accepts a multisignature with the key's slot count in which a slot is EMPTY (slot shapes: G signed in position, W wrong signature, E empty)"
                 elif got == "T":
                     sig, what = "sig-accepted-not-signed-in-position", "VerifyBytes accepts a signature in which not every listed key signed the message in its own position"
                 else:
                     sig, what = "sig-rejected-though-signed-in-position", "VerifyBytes rejects a signature in which every listed key signed the message in its own position"
-                find.add(sig, "VerifyBytes", inst, what, {"keys": inst, "key": c["key"], "sig": c["sig"], "spec": c["ok"], "real": got, "class": cl},
+                find.add(sig, "VerifyBytes", inst, what, {"keys": inst, "key": c["key"], "sig": c["sig"], "slots": "".join(c.get("slots") or []), "spec": c["ok"], "real": got, "class": cl},
                          {"driver": "cryptodrv", "args": ["sigs", "-seed", str(seed)],
                           "stdin": [json.dumps({"i": 0, "key": c["key"], "sig": c["sig"]}, separators=(",", ":"))],
                           "expected": {inst: want}})
@@ -185,6 +286,7 @@ def _run_sigs(d, tier, seed, out, find, notes):
     notes["sig_cases_accepted_by_spec"] = accepted
     notes["sig_case_classes"] = dict(sorted(classes.items()))
     notes["sig_real_verifications_compared"] = ncmp
+    notes["sig_slot_shape_table"] = slot_stats
     if tier == "quick":
         notes["sigs_tlc_coverage"] = _coverage_summary(res.out, "Sigs")
     for c in [c for c in cases if c["ok"]][:1] + cases[len(cases) // 2:len(cases) // 2 + 1]:
@@ -195,8 +297,8 @@ def _run_sigs(d, tier, seed, out, find, notes):
 # ------------------------------------------------------------------------------------------------
 # keybase
 
-COST = {("Create", "ok"): 1, ("ImportObj", "ok"): 1, ("ImportArm", "badpass"): 1, ("ImportArm", "exists"): 1,
-        ("ImportArm", "ok"): 2, ("Update", "ok"): 2, ("Update", "badpass"): 1, ("ExportArm", "ok"): 2,
+COST = {("Create", "ok"): 1, ("ImportObj", "ok"): 1, ("ArmorRaw", "ok"): 1, ("ImportArm", "badpass"): 1, ("ImportArm", "exists"): 1,
+        ("ImportArm", "ok"): 2, ("Update", "ok"): 2, ("Update", "badpass"): 1, ("ExportArm", "ok"): 4,
         ("ExportArm", "badpass"): 1, ("ExportObj", "ok"): 1, ("ExportObj", "badpass"): 1, ("Delete", "ok"): 1,
         ("Delete", "badpass"): 1, ("Sign", "ok"): 1, ("Sign", "badpass"): 1}
 
@@ -218,20 +320,60 @@ WS_REQUIRED = [("ws-padded-wrong", op) for op in WS_OPS] + [("ws-trimmed-wrong",
 
 def _beh_items(beh):
     items = set()
+    origin = {}          # (k, p) of an armor made by ExportArm -> the passphrase the key was stored under at that moment
+    refused = {}         # k -> the owner's passphrase, after an ImportArm of the stored key k (right decrypt passphrase,
+                         #      another encrypt passphrase) was refused and nothing has changed the key since
+    prev = None
     for s in beh:
         l = s["l"]
-        cls = l["res"]["class"]
-        items.add((l["op"], cls))
-        items.add((l["op"], cls, l["p"], l["q"]))
-        items.add((l["op"], cls, len(s["list"])))
-        if l["op"] in WS_OPS and 1 <= l["k"] <= len(s["st"]):
-            stored = s["st"][l["k"] - 1]        # failed calls leave the store as it was
+        op, cls, k = l["op"], l["res"]["class"], l["k"]
+        before = prev if prev is not None else ["-"] * len(s["st"])      # the store before the call
+        prev = s["st"]
+        items.add((op, cls))
+        items.add((op, cls, l["p"], l["q"]))
+        items.add((op, cls, len(s["list"])))
+        kind = KIND.get(k)
+        if kind and (op, cls) in TYPED_OPS:
+            items.add(("%s@%s" % (op, kind), cls))
+        stored = before[k - 1] if 1 <= k <= len(before) else "-"
+        needed = l["a"]["p"] if op == "ImportArm" else stored           # the passphrase the call has to present
+        if op in WS_OPS and stored != "-":
             if cls == "badpass" and PADDED.get(stored) == l["p"]:
-                items.add(("ws-padded-wrong", l["op"]))
+                items.add(("ws-padded-wrong", op))
             if cls == "badpass" and BASE_OF.get(stored) == l["p"]:
-                items.add(("ws-trimmed-wrong", l["op"]))
+                items.add(("ws-trimmed-wrong", op))
             if cls == "ok" and l["p"] in BASE_OF:
-                items.add(("ws-right", l["op"]))
+                items.add(("ws-right", op))
+        if op in USES_PASS:
+            if cls == "ok" and l["p"] == "e":
+                items.add(("e-right", op))
+            if cls == "badpass" and l["p"] == "e":
+                items.add(("e-wrong", op))
+            if cls == "badpass" and needed == "e":
+                items.add(("e-needed", op))
+        if cls == "ok" and ((op in ("Create", "ImportObj", "ArmorRaw") and l["p"] == "e") or
+                            (op in ("Update", "ExportArm", "ImportArm") and l["q"] == "e")):
+            items.add(("e-new", op))
+        # scenarios
+        if op == "ExportArm" and cls == "ok":
+            origin[(k, l["q"])] = stored
+        if op == "ArmorRaw" and cls == "ok":
+            origin.pop((k, l["p"]), None)
+        if op == "ImportArm" and kind:
+            a = (l["a"]["k"], l["a"]["p"])
+            if a in origin and stored == "-":
+                if a[1] == "e" and origin[a] != "e" and l["p"] == "e" and cls == "ok":
+                    items.add(("roundtrip-export-under-empty", kind))
+                if a[1] == "e" and origin[a] != "e" and l["p"] == origin[a] and cls == "badpass":
+                    items.add(("empty-export-storage-pass-refused", kind))
+                if a[1] != "e" and l["p"] == "e" and cls == "badpass":
+                    items.add(("export-empty-import-refused", kind))
+            if cls == "exists" and l["q"] != stored:
+                refused[k] = stored
+        if op in ("Update", "Delete", "ImportObj", "Create") and cls == "ok" or (op == "ImportArm" and cls == "ok"):
+            refused.pop(k, None)
+        if op == "Sign" and cls == "ok" and refused.get(k) == l["p"] and kind:
+            items.add(("reimport-refused-then-owner-signs", kind))
     return items
 
 
@@ -314,7 +456,7 @@ def _compare_behaviours(backend, behs, resp, find, notes, job):
                            "prefix": [s["l"]["op"] + "/" + s["l"]["res"]["class"] for s in beh[:i]]}, **extra),
                      {"driver": "cryptodrv", "args": ["keybase"],
                       "job": {"seed": job["seed"], "backend": backend, "passes": (job.get("passes_by") or [job["passes"]] * (b + 1))[b],
-                              "nknown": job["nknown"], "nk": job["nk"], "probe": True, "workers": 1, "behaviours": [beh]},
+                              "nknown": job["nknown"], "nk": job["nk"], "secp": job.get("secp", []), "probe": True, "workers": 1, "behaviours": [beh]},
                       "failing_step": i})
 
         diverged = False
@@ -392,7 +534,7 @@ def _run_keybase(d, tier, seed, out, find, notes):
         name = m.group(1) if m.group(1) != "Next" else "ImportArm(Next@%s)" % m.group(2)
         cov[name] = (int(m.group(3)), int(m.group(4)))
     notes["keybase_action_coverage_distinct_generated"] = {a: list(v) for a, v in sorted(cov.items())}
-    if len(cov) < 13:
+    if len(cov) < 14:
         raise common.ToolError("Keybase: coverage lists only %d actions" % len(cov))
     never = [a for a, v in cov.items() if v[1] == 0 and a not in ("Init",)]
     if never:
@@ -423,35 +565,128 @@ def _run_keybase(d, tier, seed, out, find, notes):
     if missing:
         raise common.ToolError("Keybase simulation never produced %s (vacuity)" % sorted(missing))
     notes["keybase_behaviour_pool"] = len(pool)
+    # scenario programs: the case tables RoundTrip / Life of Keybase.tla, run by TLC with the specification's own actions
+    pres = _tlc("Keybase", cfg["kbprog"], d, "Keybase scenario programs", cfg["tlc_timeout"])
+    common.require_tlc_ok(pres, "Keybase " + cfg["kbprog"])
+    out.add_tlc(pres, "Keybase %s: scenario programs (round trip, life of a key; all keys x all passphrases), StepOK on every step" % cfg["kbprog"])
+    progs, fams = [], {}
+    for c in _json_lines(pres.out):
+        if c.get("program"):
+            progs.append(c["program"])
+            fams[c["tag"][0]] = fams.get(c["tag"][0], 0) + 1
+    if set(fams) != {"RoundTrip", "Life"} or min(fams.values()) < 3 * 16:
+        raise common.ToolError("Keybase scenario programs: TLC printed %s (vacuity)" % fams)
+    notes["keybase_scenario_programs"] = dict(fams)
+    must_all = must | set(TYPED_REQUIRED) | set(EMPTY_REQUIRED) | set(SCEN_REQUIRED)
+    prog_items = [_beh_items(b) for b in progs]
+    prog_costs = [_beh_cost(b, 4) for b in progs]
     rnd = random.Random(seed * 2654435761 % (2 ** 31))
-    total_steps = 0
-    ncompared = 0
-    for backend, budget in (("mem", cfg["budget_mem"]), ("lazy", cfg["budget_lazy"])):
-        behs, covered, spent = _select(pool, budget, 4, rnd, must)
-        passes_by = _passes(seed, len(behs))
+    jobs = {}
+    for backend in BACKENDS:
+        behs, covered, spent = _select(pool, cfg["budget"][backend], 4, rnd, must)
         miss = must - {it for it in covered if len(it) == 2}
         if miss:
-            raise common.ToolError("Keybase (%s): the budget of %d scrypt runs does not cover %s" % (backend, budget, sorted(miss)))
-        job = {"seed": seed, "backend": backend, "passes": passes_by[0] if passes_by else {}, "passes_by": passes_by,
-               "nknown": 2, "nk": 3, "probe": True, "workers": cfg["workers"], "behaviours": behs}
+            raise common.ToolError("Keybase (%s): the budget of %d scrypt runs does not cover %s" % (backend, cfg["budget"][backend], sorted(miss)))
+        nsim = len(behs)
+        chosen, covered, pspent = _select_programs(progs, prog_items, prog_costs, cfg["budget_prog"][backend], rnd, must_all, covered)
+        miss = must_all - {it for it in covered if len(it) == 2}
+        if miss:
+            raise common.ToolError("Keybase (%s): the selected behaviours and scenario programs (budget %d + %d scrypt runs) do not cover %s"
+                                   % (backend, cfg["budget"][backend], cfg["budget_prog"][backend], sorted(miss)))
+        behs = behs + chosen
+        passes_by = _passes(seed, len(behs))
+        jobs[backend] = dict(behs=behs, covered=covered, spent=spent, pspent=pspent, nsim=nsim, passes_by=passes_by,
+                             job={"seed": seed, "backend": backend, "passes": passes_by[0] if passes_by else {}, "passes_by": passes_by,
+                                  "nknown": NKNOWN, "nk": NK, "secp": SECP, "probe": True, "workers": cfg["workers"], "behaviours": behs})
+
+    # the three keybases are driven at the same time (scrypt is what costs)
+    def drive(j):
         t0 = time.time()
-        p = common.run_driver("cryptodrv", ["keybase"], stdin=json.dumps(job), timeout=3000)
+        try:
+            j["p"] = common.run_driver("cryptodrv", ["keybase"], stdin=json.dumps(j["job"]), timeout=3000)
+        except Exception as e:      # reported below, in the main thread
+            j["exc"] = e
+        j["wall"] = round(time.time() - t0, 1)
+    threads = [threading.Thread(target=drive, args=(jobs[b],)) for b in BACKENDS]
+    for t in threads:
+        t.start()
+    for t in threads:
+        t.join()
+    total_steps = 0
+    ncompared = 0
+    for backend in BACKENDS:
+        j = jobs[backend]
+        if "exc" in j:
+            raise j["exc"]
+        p, behs = j["p"], j["behs"]
         if p.returncode != 0:
             raise common.ToolError("cryptodrv keybase (%s) died: rc=%s %s" % (backend, p.returncode, p.stderr[-1500:]))
         resp = [json.loads(l) for l in p.stdout.splitlines() if l.strip()]
-        nsteps, nconf = _compare_behaviours(backend, behs, resp, find, notes, job)
+        nsteps, nconf = _compare_behaviours(backend, behs, resp, find, notes, j["job"])
+        # vacuity on the REAL side: keys of both types lived in this keybase, and "" was really presented
+        real_kinds = {}
+        for r in resp:
+            for k in r.get("list") or []:
+                if r["op"] != "Probe" and k in KIND:
+                    real_kinds[KIND[k]] = real_kinds.get(KIND[k], 0) + 1
+        lacking = sorted(set(KIND.values()) - set(real_kinds))
+        if lacking and not find.by:
+            raise common.ToolError("Keybase (%s): no key of kind %s was ever listed by the real keybase (vacuity)" % (backend, lacking))
+        if any(pb["e"] != "" for pb in j["passes_by"]):
+            raise common.ToolError("Keybase: the passphrase name e is not bound to the empty string")
         total_steps += nsteps
         ncompared += len(behs)
+        covered = j["covered"]
         notes.setdefault("keybase_replay", {})[backend] = {
-            "behaviours": len(behs), "steps": nsteps, "comparisons": nconf, "scrypt_runs_budgeted": spent,
-            "wall_s": round(time.time() - t0, 1),
+            "behaviours": len(behs), "simulated_behaviours": j["nsim"], "scenario_programs": len(behs) - j["nsim"],
+            "steps": nsteps, "comparisons": nconf, "scrypt_runs_budgeted": j["spent"], "scrypt_runs_budgeted_programs": j["pspent"],
+            "wall_s": j["wall"],
             "op_class_pairs_covered": len(set(REQUIRED) & covered), "white_space_items_covered": len(set(WS_REQUIRED) & covered),
+            "op_class_per_key_kind_covered": len(set(TYPED_REQUIRED) & covered), "empty_passphrase_items_covered": len(set(EMPTY_REQUIRED) & covered),
+            "round_trip_and_overwrite_scenarios_covered": len(set(SCEN_REQUIRED) & covered),
+            "steps_with_key_kind_listed_by_the_real_keybase": dict(sorted(real_kinds.items())),
             "items_covered": len(covered)}
         if backend == "mem" and behs:
             out.sample({"keybase_behaviour": [(s["l"]["op"], s["l"]["k"], s["l"]["p"], s["l"]["q"], s["l"]["res"]["class"]) for s in behs[0]]}, limit=8)
+            out.sample({"keybase_scenario_program": [(s["l"]["op"], s["l"]["k"], s["l"]["p"], s["l"]["q"], s["l"]["res"]["class"]) for s in behs[-1]]}, limit=8)
+    passes_by = jobs["mem"]["passes_by"]
     notes["keybase_passphrase_bindings_first_4"] = [
         {k: (v if len(v) < 40 else "%s... (%d chars)" % (v[:20], len(v))) for k, v in pb.items()} for pb in passes_by[:4]]
     return ncompared, total_steps
+
+
+def _select_programs(progs, items, costs, budget, rnd, must, covered):
+    """scenario programs for one backend: first a greedy cover of the required items the simulated behaviours
+    left uncovered (cheapest program per newly covered required item), then seeded picks up to the budget"""
+    covered = set(covered)
+    chosen, spent = [], 0
+    cand = set(range(len(progs)))
+    while True:
+        need = must - covered
+        if not need:
+            break
+        best, bestv = None, 0.0
+        for i in cand:
+            n = len(items[i] & need)
+            if n and n / (costs[i] + 2.0) > bestv:
+                best, bestv = i, n / (costs[i] + 2.0)
+        if best is None:
+            break
+        chosen.append(best)
+        covered |= items[best]
+        spent += costs[best]
+        cand.discard(best)
+    rest = sorted(cand)
+    rnd.shuffle(rest)
+    for i in rest:
+        if spent + costs[i] > budget:
+            if budget - spent < 8:
+                break
+            continue
+        chosen.append(i)
+        covered |= items[i]
+        spent += costs[i]
+    return [progs[i] for i in chosen], covered, spent
 
 
 def _coverage_summary(text, module):
@@ -474,8 +709,8 @@ ASSUMPTIONS = [
     "The multisignature property is read as in the statement: VerifyBytes accepts exactly the arrangements in which every "
     "listed key signed the message in its own position (nested keys recursively). MultiSignature.AddSignatureByIndex is "
     "not fixed by the property; its transcription is compared as a conformance note.",
-    "Key trees have depth <= 2 and at most 3 leaf keys, arrangements at most MaxLeaves atoms; keybase behaviours are drawn "
-    "from 3 keys x 4 passphrases (empty; white space only; a base passphrase that is unicode, long or plain; the base padded with ASCII or unicode white space - bound per behaviour) with at most 2 kept armors (exhaustive run of the quick tier: 1); GetCoinbase without a cached value is "
+    "Key trees have depth <= 2 and at most 3 leaf keys, arrangements at most MaxLeaves atoms (the slot-shape table adds keys with 4 leaf slots); keybase behaviours are drawn "
+    "from 3 keys (a raw ed25519 key, an armored secp256k1 key, a key generated inside) x 4 passphrases (empty; white space only; a base passphrase that is unicode, long or plain; the base padded with ASCII or unicode white space - bound per behaviour) with at most 2 kept armors (exhaustive run of the quick tier: 1); GetCoinbase without a cached value is "
     "modelled only when at most one key is listed.",
 ]
 
